@@ -215,6 +215,9 @@ def prodOp (op : String) (args : List String) : Option String :=
       | "one-net" => some (showY (genOneNet area a).toY)
       | "htree" => some (match genHtree area a with | some g => showY g.toY | none => "err:Assert")
       | _ => none
+  | "netgenc" =>
+    (runP (do let r ← pNat; let c ← pNat; let w ← pSc (α := α); let h ← pSc; let ns ← pList pSc; pure (r, c, w, h, ns)) args).map
+      fun (r, c, w, h, ns) => showY (genGridCentred (.i 1) r c w h ns).toY
   | "nl_read" =>
     (runP (do let e ← pSc (α := α); let t ← pY; pure (e, t)) args).map fun (εA, t) =>
       match parseNetlist (fun rs => rs) εA t with
